@@ -4,132 +4,6 @@ package sftp
 
 //verif:maxbytes 128
 
-// path string bound
-func vPB() int {
-	if vThorough() {
-		return 2
-	}
-	return 1
-}
-
-// vSymRequest returns a request packet of the k-th kind with symbolic fields.
-// Handle-carrying requests name either an open handle ("1") or a bogus one.
-func vSymRequest(k int) requestPacket {
-	id := vNondetU32()
-	h := "1"
-	if vNondetBool() {
-		h = "9"
-	}
-	switch k {
-	case 0:
-		return &sshFxInitPacket{Version: vNondetU32()}
-	case 1:
-		return &sshFxpLstatPacket{ID: id, Path: vNondetStringC(vPB())}
-	case 2:
-		return &sshFxpOpenPacket{ID: id, Path: vNondetStringC(vPB()), Pflags: vNondetU32(), Flags: vNondetU32(), Attrs: vNondetBytesC(4)}
-	case 3:
-		return &sshFxpClosePacket{ID: id, Handle: h}
-	case 4:
-		return &sshFxpReadPacket{ID: id, Handle: h, Offset: vNondetU64(), Len: uint32(vNondetU8())}
-	case 5:
-		d := vNondetBytesC(3)
-		return &sshFxpWritePacket{ID: id, Handle: h, Offset: uint64(vNondetU8() & 3), Length: uint32(len(d)), Data: d}
-	case 6:
-		return &sshFxpFstatPacket{ID: id, Handle: h}
-	case 7:
-		return &sshFxpSetstatPacket{ID: id, Path: vNondetStringC(vPB()), Flags: vNondetU32(), Attrs: vNondetArray(24)}
-	case 8:
-		return &sshFxpFsetstatPacket{ID: id, Handle: h, Flags: vNondetU32(), Attrs: vNondetArray(24)}
-	case 9:
-		return &sshFxpOpendirPacket{ID: id, Path: vNondetStringC(vPB())}
-	case 10:
-		return &sshFxpReaddirPacket{ID: id, Handle: h}
-	case 11:
-		return &sshFxpRemovePacket{ID: id, Filename: vNondetStringC(vPB())}
-	case 12:
-		return &sshFxpMkdirPacket{ID: id, Path: vNondetStringC(vPB()), Flags: vNondetU32()}
-	case 13:
-		return &sshFxpRmdirPacket{ID: id, Path: vNondetStringC(vPB())}
-	case 14:
-		return &sshFxpRealpathPacket{ID: id, Path: vNondetStringC(vPB())}
-	case 15:
-		return &sshFxpStatPacket{ID: id, Path: vNondetStringC(vPB())}
-	case 16:
-		return &sshFxpRenamePacket{ID: id, Oldpath: vNondetStringC(vPB()), Newpath: vNondetStringC(vPB())}
-	case 17:
-		return &sshFxpReadlinkPacket{ID: id, Path: vNondetStringC(vPB())}
-	case 18:
-		return &sshFxpSymlinkPacket{ID: id, Targetpath: vNondetStringC(vPB()), Linkpath: vNondetStringC(vPB())}
-	case 19:
-		return &sshFxpExtendedPacket{ID: id, ExtendedRequest: "statvfs@openssh.com", SpecificPacket: &sshFxpExtendedPacketStatVFS{ID: id, Path: vNondetStringC(vPB())}}
-	case 20:
-		return &sshFxpExtendedPacket{ID: id, ExtendedRequest: "posix-rename@openssh.com", SpecificPacket: &sshFxpExtendedPacketPosixRename{ID: id, Oldpath: vNondetStringC(vPB()), Newpath: vNondetStringC(vPB())}}
-	case 21:
-		return &sshFxpExtendedPacket{ID: id, ExtendedRequest: "hardlink@openssh.com", SpecificPacket: &sshFxpExtendedPacketHardlink{ID: id, Oldpath: vNondetStringC(vPB()), Newpath: vNondetStringC(vPB())}}
-	default:
-		return &sshFxpExtendedPacket{ID: id, ExtendedRequest: vNondetStringC(vPB())}
-	}
-}
-
-const vNKinds = 23
-
-// vTwin runs pkt through a read-write server and then, with the same
-// environment answers, through a read-only server; both start from a table
-// holding one file opened earlier (handle "1").
-func vKindName(pkt requestPacket) string {
-	switch p := pkt.(type) {
-	case *sshFxInitPacket:
-		return "INIT"
-	case *sshFxpLstatPacket:
-		return "LSTAT"
-	case *sshFxpOpenPacket:
-		return "OPEN"
-	case *sshFxpClosePacket:
-		return "CLOSE"
-	case *sshFxpReadPacket:
-		return "READ"
-	case *sshFxpWritePacket:
-		return "WRITE"
-	case *sshFxpFstatPacket:
-		return "FSTAT"
-	case *sshFxpSetstatPacket:
-		return "SETSTAT"
-	case *sshFxpFsetstatPacket:
-		return "FSETSTAT"
-	case *sshFxpOpendirPacket:
-		return "OPENDIR"
-	case *sshFxpReaddirPacket:
-		return "READDIR"
-	case *sshFxpRemovePacket:
-		return "REMOVE"
-	case *sshFxpMkdirPacket:
-		return "MKDIR"
-	case *sshFxpRmdirPacket:
-		return "RMDIR"
-	case *sshFxpRealpathPacket:
-		return "REALPATH"
-	case *sshFxpStatPacket:
-		return "STAT"
-	case *sshFxpRenamePacket:
-		return "RENAME"
-	case *sshFxpReadlinkPacket:
-		return "READLINK"
-	case *sshFxpSymlinkPacket:
-		return "SYMLINK"
-	case *sshFxpExtendedPacket:
-		switch p.SpecificPacket.(type) {
-		case *sshFxpExtendedPacketStatVFS:
-			return "statvfs@"
-		case *sshFxpExtendedPacketPosixRename:
-			return "posix-rename@"
-		case *sshFxpExtendedPacketHardlink:
-			return "hardlink@"
-		}
-		return "EXTENDED(unknown)"
-	}
-	return "?"
-}
-
 // request types that only read
 func vIsReadingType(pkt requestPacket) bool {
 	switch p := pkt.(type) {
